@@ -15,6 +15,16 @@ pub assume_specification [RoaInfo::new] (a: Vec<RoaPayloadJsonMapKey>, r: Roa) -
 pub assume_specification [<ObjectName as From<RoaPayloadJsonMapKey>>::from] (k: RoaPayloadJsonMapKey) -> (r: ObjectName);
 /// the routes that fall inside a resource set (Routes::filter: flat_map over the map; ASSUMED)
 pub uninterp spec fn filtered(r: Routes, res: ResourceSet) -> Routes;
+#[verifier::external_type_specification] #[verifier::external_body] pub struct ExRoaPayload(RoaPayload);
+#[verifier::external_type_specification] #[verifier::external_body] pub struct ExRoaIpAddress(RoaIpAddress);
+/// the certificate's resources hold the prefix of an authorisation (rpki-rs ResourceSet::contains_roa_address of its address), uninterpreted
+pub uninterp spec fn holds_prefix_of(res: ResourceSet, a: RoaPayloadJsonMapKey) -> bool;
+pub uninterp spec fn payload_of(a: RoaPayloadJsonMapKey) -> RoaPayload;
+pub uninterp spec fn address_of(p: RoaPayload) -> RoaIpAddress;
+pub assume_specification [<RoaPayloadJsonMapKey as AsRef<RoaPayload>>::as_ref] (a: &RoaPayloadJsonMapKey) -> (r: &RoaPayload) ensures *r == payload_of(*a);
+pub assume_specification [RoaPayload::as_roa_ip_address] (p: &RoaPayload) -> (r: RoaIpAddress) ensures r == address_of(*p);
+pub assume_specification [ResourceSet::contains_roa_address] (res: &ResourceSet, a: &RoaIpAddress) -> (r: bool)
+    ensures forall |k: RoaPayloadJsonMapKey| *a == address_of(payload_of(k)) ==> r == #[trigger] holds_prefix_of(*res, k);
 pub uninterp spec fn key_resources(k: CertifiedKey) -> ResourceSet;
 #[verifier::external_type_specification] pub struct ExReceivedCert(ReceivedCert);
 pub assume_specification [CertifiedKey::incoming_cert] (k: &CertifiedKey) -> (r: &ReceivedCert) ensures r.resources == key_resources(*k);
@@ -56,6 +66,11 @@ impl Roas { pub fn make_roa(_a: &[RoaPayloadJsonMapKey], _n: &ObjectName, _k: &C
 impl RoaInfo { pub fn new(_a: Vec<RoaPayloadJsonMapKey>, _r: Roa) -> Self { unimplemented!() } }
 impl From<RoaPayloadJsonMapKey> for ObjectName { fn from(_k: RoaPayloadJsonMapKey) -> Self { unimplemented!() } }
 impl CertifiedKey { pub fn incoming_cert(&self) -> &ReceivedCert { unimplemented!() } }
+pub struct RoaPayload(pub u8);
+pub struct RoaIpAddress(pub u8);
+impl AsRef<RoaPayload> for RoaPayloadJsonMapKey { fn as_ref(&self) -> &RoaPayload { unimplemented!() } }
+impl RoaPayload { pub fn as_roa_ip_address(&self) -> RoaIpAddress { unimplemented!() } }
+impl ResourceSet { pub fn contains_roa_address(&self, _a: &RoaIpAddress) -> bool { unimplemented!() } }
 /// stub: only the field create_updates reads
 pub struct ReceivedCert { pub resources: ResourceSet }
 ''')
@@ -73,6 +88,12 @@ pub struct ReceivedCert { pub resources: ResourceSet }
     U.impl('impl Routes', [
         U.fn(ROA, 'Routes', 'has', requires=[('km', km)], ensures=[('lookup', 'r == self.map@.contains_key(*auth)')]),
         U.fn(ROA, 'Routes', 'len', requires=[('km', km)], ensures=[('is_len', 'r == self.map@.len()')]),
+        # the flat_map closure of Routes::filter (body lifted verbatim, R15): an entry is kept, unchanged, exactly when the resources
+        # hold the prefix of its authorisation; the iterator chain around it is not verified (the set-level contract below is ASSUMED)
+        U.closure_fn(ROA, 'Routes', 'filter', 0, 'vx_filter_entry',
+                     '(auth: &RoaPayloadJsonMapKey, info: &RouteInfo, resources: &ResourceSet) -> (r: Option<(RoaPayloadJsonMapKey, RouteInfo)>)',
+                     ensures=[('kept_iff_prefix_held', '(r is Some) <==> holds_prefix_of(*resources, *auth)'),
+                              ('kept_unchanged', 'r is Some ==> r->Some_0.0 == *auth && r->Some_0.1 == *info')]),
         U.fn(ROA, 'Routes', 'filter', external_body=True, ensures=[('assumed', 'r == filtered(*self, *resources)')]),
     ])
     keys_inv = lambda m: f'vx_it.seq().unref().to_set() == self.{m}@.dom()'
